@@ -529,7 +529,7 @@ theorem runNodeUpdate_dyn {fuel : Nat} {r : Root} {cur : Id} {n : Node} {eq : Eq
   have hdC' : disposeChildren f (rA.setNode cur { unlinked cur cur n with callback := none, value := none }) cur
       = .ok rC := by rw [hrB, hnBdef] at hdC; exact hdC
   have hrn := runNodeUpdate_unfold hn hU hnA (by simpa [unlinked] using hcb) (by simpa [unlinked] using hv)
-    hdC' hrun
+    hdC' hnC hrun
   -- E/F: link and restore
   obtain ⟨rE, hrE⟩ : ∃ rE : Root, rE =
       { rC with trace := rC.trace ++ [.run cur (pureObs r cl.env cl.body) new] } := ⟨_, rfl⟩
